@@ -229,6 +229,7 @@ class Context:
             self.assume_term(t if d else z3.Not(t))
             return d
         # fresh decision
+        self.instantiate()
         mt = None
         if self.model is not None:
             try:
